@@ -461,4 +461,34 @@ theorem no_marks_iff_eq (a b : List α) :
 example : removed (strScript ['a', 'b', 'c'] ['b', 'd']) + inserted (strScript ['a', 'b', 'c'] ['b', 'd']) = 3 ∧
     removed (strScript ['b', 'd'] ['a', 'b', 'c']) + inserted (strScript ['b', 'd'] ['a', 'b', 'c']) = 3 := by decide
 
+/-- The property does not depend on HOW ties are broken: every valid script for `a → b` (whatever produced it) whose
+    unchanged characters form a longest common subsequence marks exactly as many characters as `strScript a b`, and
+    conversely a valid script that marks that few keeps a longest common subsequence.  (A rewrite of the matrix that
+    picks another optimal path changes the correspondence, not the truth of C11.) -/
+theorem minimal_iff_kept_longest (a b : List α) (s' : List (CharOp α))
+    (hfrom : fromProj s' = a) (hto : toProj s' = b) :
+    (kept s').length = lcs a b ↔
+      removed s' + inserted s' = removed (strScript a b) + inserted (strScript a b) := by
+  have h1 := length_fromProj s'
+  have h2 := length_toProj s'
+  rw [hfrom] at h1
+  rw [hto] at h2
+  have hk : (kept s').length ≤ lcs a b := by
+    apply lcs_le
+    constructor
+    · have := kept_sublist_fromProj s'; rwa [hfrom] at this
+    · have := kept_sublist_toProj s'; rwa [hto] at this
+  have := removed_plus_inserted_eq a b
+  have := lcs_le_left a b
+  have := lcs_le_right a b
+  constructor <;> intro h <;> omega
+
+/-- non-vacuity: another optimal script for "ab" → "ba" (keeps 'a' where the model keeps 'b') -/
+example : fromProj [CharOp.inserted 'b', CharOp.kept 'a', CharOp.removed 'b'] = ['a', 'b'] ∧
+    toProj [CharOp.inserted 'b', CharOp.kept 'a', CharOp.removed 'b'] = ['b', 'a'] ∧
+    (kept [CharOp.inserted 'b', CharOp.kept 'a', CharOp.removed 'b']).length = lcs ['a', 'b'] ['b', 'a'] ∧
+    strScript ['a', 'b'] ['b', 'a'] ≠ [CharOp.inserted 'b', CharOp.kept 'a', CharOp.removed 'b'] := by
+  refine ⟨by decide, by decide, ?_, by decide⟩
+  simp [lcs, kept, CharOp.keptPart]
+
 end GtModel.C11
